@@ -112,8 +112,19 @@ def run(ctx):
         seen_fns.update(res.get("analysed", []))
     unseen = [p for p in reach if p not in seen_fns and F.body(p) is not None]
     if unseen:
-        # modular pass of lib_panic (handles fold accumulators by the counter axiom, rescues private helpers in context)
-        lib_panic.check(ctx, [], unseen, rule="PANIC", modular=True, fold_scope=reach)
+        # modular pass of lib_panic (handles fold accumulators by the counter axiom, rescues private helpers in context);
+        # what is reachable from the writer-side entry points only is analysed under the same interface invariant
+        # I(Message) as those entry points
+        parser_side = set(cg.local_reachable(ENTRIES))
+        un_p = [p for p in unseen if p in parser_side]
+        un_w = [p for p in unseen if p not in parser_side]
+        if un_p:
+            lib_panic.check(ctx, [], un_p, rule="PANIC", modular=True, fold_scope=reach)
+        if un_w:
+            def setup(eng):
+                w = writer_engine(F, R, "stand-alone writer-side closures / helpers")
+                eng.len_max, eng.on_call, eng.merge_returns = w.len_max, w.on_call, True
+            lib_panic.check(ctx, [], un_w, rule="WRITER", modular=True, fold_scope=reach, budget=3000000, engine_setup=setup)
     R.instance("COVER", "%d reachable handwritten functions / closures: %d visited in context, %d analysed stand-alone" % (len(reach), len(reach) - len(unseen), len(unseen)))
     for c in lib_parse.CUTS:
         R.instance("NOMC", "%s: weak parser contract assumed at %d call site evaluation(s)" % (c, used.get(c, 0)))
